@@ -64,6 +64,18 @@ func makeDepGraph(program Program) depGraph {
 				if _, ok := program.EdbPredicates[p.Atom.Predicate]; !ok {
 					dep.addEdge(s, p.Atom.Predicate, true)
 				}
+			case ast.TemporalLiteral:
+				switch lit := p.Literal.(type) {
+				case ast.Atom:
+					if _, ok := program.EdbPredicates[lit.Predicate]; !ok && !lit.Predicate.IsBuiltin() {
+						negated := rule.Transform != nil && !rule.Transform.IsLetTransform()
+						dep.addEdge(s, lit.Predicate, negated)
+					}
+				case ast.NegAtom:
+					if _, ok := program.EdbPredicates[lit.Atom.Predicate]; !ok {
+						dep.addEdge(s, lit.Atom.Predicate, true)
+					}
+				}
 			}
 		}
 	}
